@@ -219,6 +219,9 @@ INSIDE_FORMS = [
     "println!(\"{}\", a + b);", "assert_eq!(x as u8, &y);", "let v = vec![a + b, c];", "let u = unsafe { f() };", "for i in 0..n { g(i); }", "while a < b { a += 1; }",
     "let l = 'lbl: loop { break 'lbl 1; };", "let cl = move || { h() };", "let g = f::<u8>(1);", "let p = <T as Tr>::f();", "if a && b || c { d(); }", "let e = !flag;",
     "write!(out, \"{}\", x.y as u8)?;", "let k = m!(a - b, &c, d as u8);", "debug_assert!(p == q && r != s, \"msg {}\", t);", "type Local = Vec<u8>;", "use inner::{a, b};",
+    # (appended: the indices of the earlier forms are keys of recorded findings)
+    # redundant semicolons (rustfmt deletes them) and loops written with a terminating semicolon: a comment next to the deleted token
+    "first_call(); ; second_call();", "let one = 1; ;", "loop { work(); };", "while cond { step(); };", "for i in it { body(i); };", "if c { d(); };", "match v { _ => e() };", "unsafe { f() };",
 ]
 
 
@@ -380,9 +383,9 @@ def e2e(rep, tier, seed):
             if prev in ("!", "$", "#", "'") or (prev == ":" and cur == ":") or (prev in "=<>-+|&." and cur in "=<>|&."):
                 continue          # inside a compound operator / a macro or attribute head
             widths = ["100", "40"] if tier != "thorough" else ["100", "60", "40", "25"]
-            for w in widths:
-                if tier != "thorough" and (fi + bi + seed + int(w)) % 2:
-                    continue
+            for wi, w in enumerate(widths):
+                if tier != "thorough" and (fi + bi + seed + wi) % 2:
+                    continue          # quick: every boundary, at one of the two widths
                 mark = "FRM%d_%dQ" % (fi, bi)
                 text = (b[:off] + ("/* %s */ " % mark).encode() + b[off:]).decode("utf-8")
                 cases.append({"text": text, "config": [["max_width", w]], "again": False, "lex": False})
@@ -446,7 +449,7 @@ def e2e(rep, tier, seed):
                 found += 1
     rep.coverage["e2e_injections_judged"] = n
     rep.coverage["e2e_per_position"] = {"%s/%s" % k: v for k, v in sorted(per.items())}
-    rep.coverage["e2e_rule"] = "pool source programs (thorough: all; quick: the 1/%d selected by the seed) x up to 2 elements of each kind %s x {block comment before, line comment on its own line before, line comment / block comment at the end of the element's line} under the program's configuration and, rotating, style_edition 2024, another max_width (30 / 50 / 70 / 140) or one of 20 layout-option presets (fn_single_line, group_imports, brace styles, heuristics, Visual indent, comment options ...); 17 one-statement bodies / empty items x line and block comment x 10 single-line option sets (fn_single_line, match_arm_blocks, single-line if/else and let-else, struct_lit_single_line, empty_item_single_line, where_single_line); 40 generated import runs (empty lists included) with comments before / after their declarations under group_imports x imports_granularity x reorder_imports: the marker comment must appear exactly once in the output of every accepted run; a block comment at a random token boundary inside up to 6 statements per program (anywhere inside a statement of a function body), and systematically at EVERY token boundary of 41 statement forms (let / assignment / control flow / item statements / macro-call statements whose arguments parse as expressions) at two widths; a comment after EACH element of 10 kinds of lists (parameters, arguments, fields, tuple fields, variants, arms, where predicates, tuple / struct / array literals) whose elements contain the delimiters themselves, line and block style, before and after the separator, the last element with and without a trailing separator, plain and with a body that quotes the delimiters, at two widths; plus 66 synthetic expressions with a comment only the safety net can keep, after char / byte / string / raw-string literals containing quotes and comment openers" % (MOD, E2E_KINDS)
+    rep.coverage["e2e_rule"] = "pool source programs (thorough: all; quick: the 1/%d selected by the seed) x up to 2 elements of each kind %s x {block comment before, line comment on its own line before, line comment / block comment at the end of the element's line} under the program's configuration and, rotating, style_edition 2024, another max_width (30 / 50 / 70 / 140) or one of 20 layout-option presets (fn_single_line, group_imports, brace styles, heuristics, Visual indent, comment options ...); 17 one-statement bodies / empty items x line and block comment x 10 single-line option sets (fn_single_line, match_arm_blocks, single-line if/else and let-else, struct_lit_single_line, empty_item_single_line, where_single_line); 40 generated import runs (empty lists included) with comments before / after their declarations under group_imports x imports_granularity x reorder_imports: the marker comment must appear exactly once in the output of every accepted run; a block comment at a random token boundary inside up to 6 statements per program (anywhere inside a statement of a function body), and systematically at EVERY token boundary of 49 statement forms (let / assignment / control flow / item statements / macro-call statements whose arguments parse as expressions) at two widths; a comment after EACH element of 10 kinds of lists (parameters, arguments, fields, tuple fields, variants, arms, where predicates, tuple / struct / array literals) whose elements contain the delimiters themselves, line and block style, before and after the separator, the last element with and without a trailing separator, plain and with a body that quotes the delimiters, at two widths; plus 66 synthetic expressions with a comment only the safety net can keep, after char / byte / string / raw-string literals containing quotes and comment openers" % (MOD, E2E_KINDS)
     return found
 
 
